@@ -283,15 +283,61 @@ PREDS = {
 LOG = []
 
 
-def make_pred(pid, fn):
-    f = PREDS[fn]
+def _apply_pred(pid, fn, x):
+    if pid is not None:
+        LOG.append(pid)
+    return PREDS[fn](x)
 
-    def pred(x):
-        if pid is not None:
-            LOG.append(pid)
-        return f(x)
-    pred.__name__ = fn
-    return pred
+
+class CallableObj:
+    """a callable INSTANCE: no __name__ (module-level class, so it pickles)"""
+
+    def __init__(self, pid, fn):
+        self.pid, self.fn = pid, fn
+
+    def __call__(self, x):
+        return _apply_pred(self.pid, self.fn, x)
+
+    def __repr__(self):
+        return 'CallableObj(%r, %r)' % (self.pid, self.fn)
+
+
+PRED_FORMS = ('fn', 'inst', 'partial')
+
+
+def make_pred(pid, fn, form='fn'):
+    """the callable `fn` of the catalogue, logging occurrence `pid` when it runs, as
+      'fn'       a named module-level FUNCTION (one per (fn, pid); __name__ = fn; pickles by reference)
+      'inst'     an instance of a class with __call__ (no __name__)
+      'partial'  a functools.partial object (no __name__)"""
+    if form == 'inst':
+        return CallableObj(pid, fn)
+    if form == 'partial':
+        import functools
+        return functools.partial(_apply_pred, pid, fn)
+    name = '_pred_%s_%s' % (fn, pid)
+    f = globals().get(name)
+    if f is None:
+        def f(x, _pid=pid, _fn=fn):
+            return _apply_pred(_pid, _fn, x)
+        f.__name__ = fn
+        f.__qualname__ = name
+        globals()[name] = f
+    return f
+
+
+def vary_forms(rng, j, p=0.4):
+    """give a fraction of the callables of a case (callable patterns, Check validators) a form
+    without __name__: every `{'id':…, 'fn':…}` node that has no 'form' yet"""
+    if isinstance(j, dict):
+        if 'fn' in j and 'id' in j and 'form' not in j and rng.random() < p:
+            j['form'] = rng.choice(['inst', 'partial'])
+        for v in j.values():
+            vary_forms(rng, v, p)
+    elif isinstance(j, list):
+        for v in j:
+            vary_forms(rng, v, p)
+    return j
 
 
 import collections.abc as _cabc
@@ -334,8 +380,17 @@ def build_t(e):
 
 
 def build_arg(a):
+    """what is passed as `default=`: {'c': V} a plain value | {'t': [...]} a T expression |
+    {'val': V} Val(v) | {'seq': [item...], 'tuple': bool} a list / tuple display of plain values and
+    T expressions"""
     if 'c' in a:
         return dec_v(a['c'])
+    if 'val' in a:
+        import glom
+        return glom.Val(dec_v(a['val']))
+    if 'seq' in a:
+        items = [dec_v(i['c']) if 'c' in i else build_t(i['t']) for i in a['seq']]
+        return tuple(items) if a.get('tuple') else items
     return build_t(a['t'])
 
 
@@ -355,9 +410,12 @@ RE_CLS = {'lower': '[a-z]', 'digit': r'\d', 'notAt': '[^@]', 'any': '.'}
 
 
 def om(j, f):
+    """{'one': x} -> f(x); {'many': [...], 'as': 'list' | 'tuple'} -> that container of f(x): the
+    container KIND is part of the case and is passed to glom as it is"""
     if 'one' in j:
         return f(j['one'])
-    return [f(x) for x in j['many']]
+    xs = [f(x) for x in j['many']]
+    return xs if j.get('as') == 'list' else tuple(xs)
 
 
 def build_spec(j):
@@ -404,18 +462,15 @@ def build_spec(j):
         kw = {}
         if j.get('type') is not None:
             kw['type'] = om(j['type'], lambda n: TYPES[n])
-            if isinstance(kw['type'], list):
-                kw['type'] = tuple(kw['type'])
         if j.get('instance_of') is not None:
             kw['instance_of'] = om(j['instance_of'], lambda n: TYPES[n])
-            if isinstance(kw['instance_of'], list):
-                kw['instance_of'] = tuple(kw['instance_of'])
         if j.get('equal_to') is not None:
             kw['equal_to'] = dec_v(j['equal_to']['v'])
         if j.get('one_of') is not None:
-            kw['one_of'] = tuple(dec_v(x) for x in j['one_of'])
+            vals = [dec_v(x) for x in j['one_of']]
+            kw['one_of'] = vals if j.get('one_of_as') == 'list' else tuple(vals)
         if j.get('validate') is not None:
-            kw['validate'] = om(j['validate'], lambda f: make_pred(f.get('id'), f['fn']))
+            kw['validate'] = om(j['validate'], lambda f: make_pred(f.get('id'), f['fn'], f.get('form', 'fn')))
         if j.get('d') is not None:
             kw['default'] = build_arg(j['d'])
         if j.get('spec') is not None:
@@ -437,7 +492,7 @@ def build_spec(j):
     if k == 'lit':
         return dec_v(j['v'])
     if k == 'pred':
-        return make_pred(j['id'], j['fn'])
+        return make_pred(j['id'], j['fn'], j.get('form', 'fn'))
     if k == 'list':
         return [build_spec(c) for c in j['cs']]
     if k == 'set':
@@ -525,9 +580,9 @@ def run_prog(prog):
             spec = objs[st['eval']]
             t = dec_v(st['target'])
             if st.get('bare'):
-                out.append(observe(lambda: glom.glom(t, spec)))
+                out.append(observe(lambda: glom.glom(t, spec), t))
             else:
-                out.append(observe(lambda: glom.glom(t, glom.Match(spec))))
+                out.append(observe(lambda: glom.glom(t, glom.Match(spec)), t))
     return out
 
 
@@ -584,7 +639,11 @@ def origin_class(e):
     return type(e)
 
 
-def observe(call):
+_NO_TARGET = object()
+
+
+def observe(call, target=_NO_TARGET):
+    """outcome of `call()`; with `target`: also whether the result IS the target object (`same`)"""
     import glom
     from glom.matching import MatchError, TypeMatchError, CheckError
     del LOG[:]
@@ -596,10 +655,14 @@ def observe(call):
                 'typematch': issubclass(c, TypeMatchError), 'typeerror': issubclass(c, TypeError),
                 'pae': issubclass(c, glom.PathAccessError), 'check': issubclass(c, CheckError),
                 'log': list(LOG)}
+    out = {'log': list(LOG)}
+    if target is not _NO_TARGET:
+        out['same'] = res is target
     try:
-        return {'ok': enc_v(res), 'log': list(LOG)}
+        out['ok'] = enc_v(res)
     except Unencodable:
-        return {'ok': {'obj': 'unencodable:' + type(res).__name__}, 'log': list(LOG)}
+        out['ok'] = {'obj': 'unencodable:' + type(res).__name__}
+    return out
 
 
 MODE_DEPENDENT = ('ty', 'lit', 'pred', 'list', 'set', 'fset', 'tuple', 'dict')
@@ -650,13 +713,13 @@ def run_impl(case):
         seq = []
         for tj in case['targets']:
             t = dec_v(tj)
-            seq.append(observe(lambda: glom.glom(t, m)))
+            seq.append(observe(lambda: glom.glom(t, m), t))
         out['impl_seq'] = seq
         return out
     target = dec_v(case['target'])
-    out['impl'] = observe(lambda: glom.glom(target, glom.Match(spec)))
+    out['impl'] = observe(lambda: glom.glom(target, glom.Match(spec)), target)
     if mode_free(case.get('ops') if case.get('ops') is not None else case.get('spec')):
-        out['impl_bare'] = observe(lambda: glom.glom(target, spec))
+        out['impl_bare'] = observe(lambda: glom.glom(target, spec), target)
     else:
         out['impl_bare'] = None
     return out
@@ -725,9 +788,16 @@ class Gen:
     def default(self):
         r = self.rng
         p = r.random()
+        if p < 0.4:
+            return {'c': jv(r.choice([0, None, 'dflt', [1], {'k': 2}, False, (1, 'a')]))}
         if p < 0.5:
-            return {'c': jv(r.choice([0, None, 'dflt', [1], {'k': 2}, False]))}
-        if p < 0.8:
+            return {'val': jv(r.choice([3, 'v', None, [0]]))}
+        if p < 0.62:
+            # a list / tuple display holding T expressions: every item is evaluated
+            return {'seq': [r.choice([{'c': jv(r.choice([0, 'x']))}, {'t': [{'i': r.randrange(4)}]},
+                                      {'t': [{'i': r.choice([1, 7])}]}]) for _ in range(r.choice([1, 2, 3]))],
+                    'tuple': r.random() < 0.5}
+        if p < 0.85:
             return {'t': [{'i': r.randrange(4)}]}
         return {'t': [{'i': r.choice([7, 9])}]}          # a default whose T access fails
 
@@ -989,7 +1059,9 @@ def check_cases(rng, per_combo):
                                         {'many': ['bool', 'NoneType']}, {'one': 'bool'}, {'many': []}])
             if has_inst:
                 j['instance_of'] = rng.choice([{'one': 'int'}, {'one': 'object'}, {'many': ['str', 'list']},
-                                               {'one': 'str'}, {'many': ['int', 'float']}, {'many': []}])
+                                               {'one': 'str'}, {'many': ['int', 'float']}, {'many': []},
+                                               {'many': ['Integral', 'Mapping']}, {'one': 'Sized'},
+                                               {'many': ['int']}])
             if has_val:
                 if rng.random() < 0.5:
                     j['equal_to'] = {'v': jv(rng.choice([3, 1, 'a', None, [1], True]))}
@@ -1005,10 +1077,20 @@ def check_cases(rng, per_combo):
                 j['validate'] = rng.choice([lambda: {'one': mk()}, lambda: {'many': [mk(), mk()]},
                                             lambda: {'many': [mk(), mk(), mk()]}, lambda: {'many': []}])()
             if has_default:
-                j['d'] = rng.choice([{'c': jv('dflt')}, {'c': None}, {'c': jv([1])}, {'t': [{'s': 'a'}]},
-                                     {'t': []}, {'t': [{'s': 'zz'}]}, {'t': [{'i': 0}]}])
+                j['d'] = rng.choice([{'c': jv('dflt')}, {'c': None}, {'c': jv([1])}, {'c': jv({'k': (1, 2)})},
+                                     {'t': [{'s': 'a'}]}, {'t': []}, {'t': [{'s': 'zz'}]}, {'t': [{'i': 0}]},
+                                     {'val': jv('v')}, {'val': jv([0])},
+                                     {'seq': [{'t': []}, {'c': jv(0)}], 'tuple': False},
+                                     {'seq': [{'t': [{'s': 'a'}]}], 'tuple': True},
+                                     {'seq': [{'c': jv('x')}, {'t': [{'i': 0}]}], 'tuple': rng.random() < 0.5}])
             if rng.random() < 0.25:
                 j['spec'] = rng.choice([[{'s': 'a'}], [{'i': 0}], [{'s': 'zz'}], [{'i': 1}]])
+            # the container KIND of a sequence argument is part of the case: list and tuple
+            for kw in ('type', 'instance_of', 'validate'):
+                if isinstance(j.get(kw), dict) and 'many' in j[kw]:
+                    j[kw] = dict(j[kw], **{'as': rng.choice(['list', 'tuple'])})
+            if j.get('one_of') is not None:
+                j['one_of_as'] = rng.choice(['list', 'tuple'])
             tgts = rng.sample(CHECK_TARGETS, 4)
             for t in tgts:
                 spec = j
@@ -1033,6 +1115,30 @@ def ctor_cases():
     yield {'spec': {'k': 'not', 'c': {'k': 'and', 'cs': [{'k': 'M'}, {'k': 'or', 'cs': [], 'd': None}], 'd': None}},
            'target': jv(1)}
     yield {'spec': {'k': 'check', 'type': {'many': []}}, 'target': jv(1)}
+    yield {'spec': {'k': 'check', 'type': {'many': [], 'as': 'list'}}, 'target': jv(1)}
+    yield {'spec': {'k': 'check', 'instance_of': {'many': [], 'as': 'list'}}, 'target': jv(1)}
+    yield {'spec': {'k': 'check', 'one_of': [], 'one_of_as': 'list'}, 'target': jv(1)}
+    for t in (1, 'a', 2.5, None):
+        for kind in ('list', 'tuple'):
+            yield {'spec': {'k': 'check', 'instance_of': {'many': ['int', 'str'], 'as': kind}}, 'target': jv(t)}
+            yield {'spec': {'k': 'check', 'type': {'many': ['int', 'str'], 'as': kind}, 'd': {'c': jv('d')}},
+                   'target': jv(t)}
+            yield {'spec': {'k': 'check', 'one_of': [jv(1), jv('a')], 'one_of_as': kind}, 'target': jv(t)}
+    # callables without __name__ that reject: alone and under Or / Not / Switch / a list pattern
+    for form in PRED_FORMS:
+        for fn in ('never', 'raises_value', 'ret_zero', 'is_pos', 'always'):
+            pr = {'k': 'pred', 'id': 0, 'fn': fn, 'form': form}
+            for t in (3, 0, 'x'):
+                yield {'spec': pr, 'target': jv(t)}
+                yield {'spec': {'k': 'or', 'cs': [pr, {'k': 'ty', 'n': 'int'}], 'd': None}, 'target': jv(t)}
+                yield {'spec': {'k': 'not', 'c': pr}, 'target': jv(t)}
+                yield {'spec': {'k': 'switch', 'cases': [[pr, {'k': 'val', 'v': jv('hit')}],
+                                                         [{'k': 'ty', 'n': 'object'}, {'k': 'val', 'v': jv('no')}]],
+                                'd': None}, 'target': jv(t)}
+                yield {'spec': {'k': 'list', 'cs': [pr, {'k': 'ty', 'n': 'str'}]}, 'target': jv([t, 'y'])}
+            yield {'spec': {'k': 'check', 'validate': {'one': {'id': 0, 'fn': fn, 'form': form}}}, 'target': jv(3)}
+            yield {'spec': {'k': 'check', 'validate': {'one': {'id': 0, 'fn': fn, 'form': form}},
+                            'd': {'t': []}}, 'target': jv(3)}
     yield {'spec': {'k': 'check', 'equal_to': {'v': jv(1)}, 'one_of': [jv(1)]}, 'target': jv(1)}
     yield {'spec': {'k': 'check', 'one_of': []}, 'target': jv(1)}
     yield {'ops': {'and': [{'leaf': {'k': 'ty', 'n': 'int'}}, {'leaf': {'k': 'and', 'cs': [{'k': 'M'}], 'd': None}}]},
@@ -1138,7 +1244,18 @@ def with_copy(rng, case, p=0.12):
 
 
 def generate(rng, tier, scale, **focus):
+    last = None
     for c in _generate(rng, tier, scale, **focus):
+        # the same tree arrives once per target: keep one choice of callable forms per tree
+        sig = json.dumps(c.get('spec') or c.get('ops') or c.get('prog'), sort_keys=True)
+        if last is None or last[0] != sig:
+            varied = json.loads(sig)
+            vary_forms(rng, varied)
+            last = (sig, varied)
+        c = dict(c)
+        for k in ('spec', 'ops', 'prog'):
+            if c.get(k) is not None:
+                c[k] = last[1]
         if 'prog' in c or 'copy' in c:
             yield c
         else:
